@@ -354,7 +354,7 @@ func (CoreScenario) Gen(r *rand.Rand, prop string) *SvcCase {
 			c.Actors = append(c.Actors, a)
 		}
 	}
-	if !lifecycle && chance(r, 10) {
+	if chance(r, 10) {
 		// a deep backlog: many callbacks for one group and a few for
 		// another, on few workers (a policy that depends on how many
 		// callbacks a group has had, or has left, needs this to show)
@@ -363,11 +363,13 @@ func (CoreScenario) Gen(r *rand.Rand, prop string) *SvcCase {
 		g := pick(r, "mg", "1", "fresh")
 		nb := 10 + r.IntN(16)
 		marks := map[int]bool{8: true, 16: true}
-		if chance(r, 35) {
-			// long enough to pass thresholds such as 32 or 64 callbacks:
-			// the workers are held until that many are queued, and the
-			// following submissions arrive exactly when they have caught up
-			c.HoldWorkers = pick(r, 31, 32, 33, 34, 63, 64, 65)
+		if chance(r, 35) || lifecycle {
+			// long enough to pass thresholds such as 32, 64 or 256
+			// callbacks: the workers are held until that many are queued,
+			// and the following submissions arrive exactly when they have
+			// caught up. With a Shutdown in the run (lifecycle) it comes
+			// while a backlog of that depth is being worked off.
+			c.HoldWorkers = pick(r, 31, 32, 33, 34, 63, 64, 65, 66, 70, 127, 128, 129, 130, 255, 256, 257, 258)
 			nb = c.HoldWorkers + 3 + r.IntN(4)
 			marks = map[int]bool{c.HoldWorkers: true, c.HoldWorkers + 1: true, c.HoldWorkers + 2: true}
 		}
@@ -604,6 +606,11 @@ func RunSvc(sim *sched.Sim, c *SvcCase, raceMode bool, setup func(e *Engine)) *S
 			info := e.Epochs[ep]
 			if ms >= 0 && int(sim.Step()) >= ms && ep <= int(e.cur.Load()) && info.ServeInvoke != 0 && (info.Refused < 3 || info.Started != 0) {
 				eligible = true
+				if c.HoldWorkers > 0 && ep == 0 && burstSubmitted() < c.HoldWorkers {
+					// a burst run: the first Shutdown comes while the
+					// backlog is being worked off, not before it exists
+					eligible = false
+				}
 			}
 			if info.ServeReturn != 0 {
 				eligible = true
